@@ -231,7 +231,7 @@ var methodName = map[string]string{"sadd": "add", "mget": "get"}
 
 var readOnly = map[string]bool{"bind": true, "get": true, "slice": true, "in": true, "len": true, "count": true,
 	"index": true, "copy": true, "keys": true, "values": true, "items": true, "mget": true, "attr": true,
-	"sorted": true, "reversed": true, "plus": true, "union": true, "intersection": true, "difference": true,
+	"sorted": true, "sortedby": true, "reversed": true, "plus": true, "union": true, "intersection": true, "difference": true,
 	"map": true, "filter": true, "iter": true, "mklist": true, "mkmap": true, "mkset": true}
 
 // ---------------------------------------------------------------- API mode
@@ -252,7 +252,7 @@ type cbEnv struct {
 	ctx     context.Context
 }
 
-const cbSrc = `[func(v) { return v }, func(i, v) { return [i, v] }, func(i, v) { return i }, func(acc) { return func(v) { acc.append(v) } }]`
+const cbSrc = `[func(v) { return v }, func(i, v) { return [i, v] }, func(i, v) { return i }, func(acc) { return func(v) { acc.append(v) } }, func(a, b) { return a < b }]`
 
 func newCbEnv() (*cbEnv, error) {
 	ctx := context.Background()
@@ -279,6 +279,7 @@ func newCbEnv() (*cbEnv, error) {
 	e.fns["iv"] = ls[1].(*object.Function)
 	e.fns["i"] = ls[2].(*object.Function)
 	e.fns["mkacc"] = ls[3].(*object.Function)
+	e.fns["less"] = ls[4].(*object.Function)
 	e.ctx = object.WithCallFunc(ctx, func(c context.Context, fn *object.Function, args []object.Object) (object.Object, error) {
 		return m.Call(c, fn, args)
 	})
@@ -402,6 +403,9 @@ func apiEval(st N, env map[string]object.Object) (res object.Object, rz *raised)
 		return unwrap(builtins.Delete(ctx, x, a))
 	case "sorted":
 		return unwrap(builtins.Sorted(ctx, x))
+	case "sortedby":
+		// sorted(x, less) with less = func(a, b) { return a < b }: the ascending stable order, x unchanged
+		return unwrap(builtins.Sorted(ctx, x, cbs.fns["less"]))
 	case "reversed":
 		return unwrap(builtins.Reversed(ctx, x))
 	case "plus":
@@ -660,6 +664,8 @@ func stmtSrc(st N) string {
 		expr = "(" + argSrc(a) + " in " + recvSrc(x) + ")"
 	case "len", "sorted", "reversed":
 		expr = o + "(" + argSrc(x) + ")"
+	case "sortedby":
+		expr = "sorted(" + argSrc(x) + ", func(a, b) { return a < b })"
 	case "delete":
 		expr = "delete(" + argSrc(x) + ", " + argSrc(a) + ")"
 	case "plus":
@@ -892,7 +898,7 @@ type gen struct {
 	freshSrc, freshDst string
 }
 
-var freshOps = map[string]bool{"slice": true, "copy": true, "sorted": true, "reversed": true, "plus": true, "keys": true,
+var freshOps = map[string]bool{"slice": true, "copy": true, "sorted": true, "sortedby": true, "reversed": true, "plus": true, "keys": true,
 	"values": true, "items": true, "union": true, "intersection": true, "difference": true, "map": true, "filter": true, "iter": true}
 var listMut = []string{"set", "set", "cset", "append", "insert", "pop", "remove", "extend", "reverse", "sort", "clear", "delete"}
 var mapMut = []string{"set", "set", "cset", "pop", "delete", "setdefault", "update", "clear", "setattr"}
@@ -938,7 +944,7 @@ func (g *gen) scalar() N {
 	return N{"t": "float", "h": g.r.Intn(13) - 4}
 }
 
-func lit(v N) N      { return N{"k": "v", "v": v} }
+func lit(v N) N        { return N{"k": "v", "v": v} }
 func nameA(n string) N { return N{"k": "n", "n": n} }
 
 var none = N{"k": "-"}
@@ -1050,7 +1056,7 @@ func (g *gen) create(dst string) N {
 
 var listOps = []string{"get", "get", "slice", "slice", "slice", "slice", "slice", "set", "set", "cset", "append", "append", "insert", "insert",
 	"pop", "pop", "remove", "extend", "reverse", "sort", "clear", "copy", "copy", "count", "index", "in", "len", "delete",
-	"plus", "sorted", "reversed", "iter", "map", "map", "filter", "each", "bind", "bind"}
+	"plus", "sorted", "sortedby", "sortedby", "reversed", "iter", "map", "map", "filter", "each", "bind", "bind"}
 var mapOps = []string{"get", "get", "set", "set", "cset", "in", "len", "delete", "keys", "values", "items", "mget", "mget",
 	"pop", "pop", "setdefault", "update", "clear", "copy", "copy", "attr", "setattr", "sorted", "iter", "bind", "bind"}
 var setOps = []string{"get", "in", "len", "delete", "sadd", "sadd", "sadd", "remove", "remove", "union", "intersection",
@@ -1197,7 +1203,7 @@ func (g *gen) next() N {
 		return step(o, g.dst(8), x, nameA(g.nameOf(object.SET)), none)
 	case "reverse", "sort", "clear":
 		return step(o, g.dst(2), x, none, none)
-	case "copy", "keys", "values", "items", "sorted", "reversed", "iter":
+	case "copy", "keys", "values", "items", "sorted", "sortedby", "reversed", "iter":
 		return step(o, g.dst(8), x, none, none)
 	case "len":
 		return step(o, g.dst(2), x, none, none)
